@@ -35,7 +35,11 @@ Lemma ist_eqb_true a b : ist_eqb a b = true -> a = b.
 Proof.
   unfold ist_eqb. intros H.
   repeat (match type of H with (_ && _) = true => apply andb_prop in H; let H' := fresh "K" in destruct H as [H H'] end).
-  apply mst_eqb_eq in H. apply ptask_eqb_true in K6. apply task_eqb_true in K5. apply task_eqb_true in K4.
+  apply mst_eqb_eq in H.
+  repeat match goal with
+         | X : ptask_eqb _ _ = true |- _ => apply ptask_eqb_true in X
+         | X : task_eqb _ _ = true |- _ => apply task_eqb_true in X
+         end.
   repeat match goal with X : Bool.eqb _ _ = true |- _ => apply Bool.eqb_prop in X end.
   destruct a, b; cbn in *; subst; reflexivity.
 Qed.
@@ -107,10 +111,32 @@ Lemma all_ii_alive : forallb ii_alive ireach = true. Proof. vm_compute. reflexiv
 Lemma all_ii_phase_closed : forallb ii_phase_closed ireach = true. Proof. vm_compute. reflexivity. Qed.
 Definition ii_reset_clean (s : ist) : bool := negb (v_reset_dirty s).
 Lemma all_ii_reset_clean : forallb ii_reset_clean ireach = true. Proof. vm_compute. reflexivity. Qed.
+(* the facade ledger: under every interleaving no facade whose tasks are alive is dropped or overwritten without disconnect(), and the
+   tasks of a facade are alive only while the manager references it *)
+Definition ii_fac_ledger (s : ist) : bool := negb (v_fleak s) && (negb (fac_live s) || fac (gs s)).
+Lemma all_ii_fac_ledger : forallb ii_fac_ledger ireach = true. Proof. vm_compute. reflexivity. Qed.
+Theorem no_facade_dropped_alive c ls s' : irun (ientered c) ls = Some s' -> v_fleak s' = false /\ (fac_live s' = true -> fac (gs s') = true).
+Proof.
+  intros R. pose proof (iinv_all ii_fac_ledger all_ii_fac_ledger c ls s' R) as H. unfold ii_fac_ledger in H.
+  apply andb_prop in H. destruct H as [H1 H2]. split.
+  - destruct (v_fleak s'); [discriminate|reflexivity].
+  - intros L. rewrite L in H2. exact H2.
+Qed.
+(* the schedule on which the code before fix fe0bb34 dropped a live facade (K13): a user reset is suspended in its RUNNING_SPA_DISCONNECTED
+   handler while the last handshake step completes and the pump creates the facade; the reset now disconnects that facade too *)
+Definition w_k13 : list ilabel :=
+  [LBig Pump; LResume SP; LBig (LocOutcome false false); LResume SP; LBig Pump; LResume SP; LBig (LocOutcome true false);
+   LResume SP; LResume SP; LResume SP; LBig (ConnOutcome CNext); LResume SP; LBig (ConnOutcome CNext); LResume SP; LResume SP;
+   LBig (ConnOutcome CNext); LResume SP; LBig (ConnOutcome CNext); LResume SP; LBig UserReset;
+   LBig (ConnOutcome CNext); LResume SP; LResume SP; LResume SP; LResume SU].
+Lemma k13_schedule_runs_and_is_clean :
+  option_map (fun s => (fac_live s, v_fleak s, fac (gs s), sstate_eqb (st (gs s)) IDLE)) (irun (ientered true) w_k13) = Some (false, false, false, true) /\
+  option_map (fun s => (fac_live s, fac (gs s), sstate_eqb (st (gs s)) CONNECTED)) (irun (ientered true) (removelast w_k13)) = Some (true, true, true).
+Proof. vm_compute. split; reflexivity. Qed.
 Lemma ireach_size : Nat.ltb 2000 (List.length ireach) = true. Proof. vm_compute. reflexivity. Qed.
 
 (* ---------- the big-step LTS is one of the schedules ---------- *)
-Definition embed (s : mst) : ist := mkI (norm s) (PBlocked (ppc s)) TNone TNone false false false (spa s) false.
+Definition embed (s : mst) : ist := mkI (norm s) (PBlocked (ppc s)) TNone TNone false false false (spa s) false (fac s) false.
 Definition slot_of (l : label) : slot := match l with Ext _ => SE | UserReset | SetSpaInfo => SU | _ => SP end.
 Definition suspended (s : ist) (sl : slot) : bool :=
   match sl with SP => match tp s with PSusp _ => true | _ => false end
